@@ -2,6 +2,7 @@ package props
 
 import (
 	"fmt"
+	"os"
 	"strconv"
 	"strings"
 	"unicode/utf8"
@@ -72,7 +73,18 @@ func theGrammar() (*pegi.Grammar, error) {
 	if grammarForChecks != nil {
 		return grammarForChecks, nil
 	}
-	g, err := pegi.LoadGrammar(repoDirNT() + "/jsonpath.peg")
+	// The published grammar is the committed reference copy (the grammar file as it was when the
+	// properties were written; only its rules matter to PEGI, not the Go actions). A change that
+	// edits /repo/jsonpath.peg and the generated parser consistently would otherwise move the
+	// oracle along with the implementation. Without the copy, /repo's file is used.
+	dir := os.Getenv("VERIF_DIR")
+	if dir == "" {
+		dir = "/verif"
+	}
+	g, err := pegi.LoadGrammar(dir + "/corpus/jsonpath.peg.ref")
+	if err != nil {
+		g, err = pegi.LoadGrammar(repoDirNT() + "/jsonpath.peg")
+	}
 	if err != nil {
 		return nil, err
 	}
